@@ -3,6 +3,7 @@ package checks
 
 import (
 	"encoding/json"
+	"errors"
 	"fmt"
 	"sort"
 	"time"
@@ -20,11 +21,20 @@ type Check struct {
 	ThoroughBudget time.Duration
 	Rule           string
 	Assumptions    []string
+	// Replay, if set, re-executes one recorded case directly (without the
+	// explorer) and returns the violation message ("" = the case passes).
+	Replay func(caseJSON []byte) (string, error)
+	// ReplayExe: harness executable the replay must run in ("" = vcheck).
+	ReplayExe string
 	// Known maps a violation class to the id of a known finding it may be
 	// reported under (only if that id is listed in known_findings.txt).
 }
 
 var Registry = map[string]*Check{}
+
+// ErrUseWorker is returned by a Check.Replay that cannot replay the case
+// directly: the case is then re-run through the worker, restricted to its index.
+var ErrUseWorker = errors.New("replay through the worker")
 
 // Finish classifies crashes and violations, prints the verdict lines, writes
 // the evidence file and returns the exit status.
